@@ -105,9 +105,11 @@ class Gen:
             fam = r.choice(["Normal", "Uniform", "Laplace", "DistExp", "Gamma", "Beta", "Normal", "Uniform"])
             loc = r.choice([x, "0", "1"] + lower)
             if fam == "Normal":
-                return f"{x} = Normal({loc}, {r.choice(['1', '4', '1/4', '2'])})"
+                mu = r.choice([loc, f"{loc} - 1", f"1 - {loc}"])
+                return f"{x} = Normal({mu}, {r.choice(['1', '4', '1/4', '2'])})"
             if fam == "Uniform":
-                return f"{x} = Uniform({loc}, {loc} + {r.choice(['1', '2', '1/2'])})"
+                lo = r.choice([loc, f"{loc} - 1", f"{loc} + 1/2", f"2*{loc} - 1"])
+                return f"{x} = Uniform({lo}, {loc} + {r.choice(['1', '2', '3/2'])})"
             if fam == "Laplace":
                 return f"{x} = Laplace({loc}, {r.choice(['1', '2', '1/2'])})"
             if fam == "DistExp":
